@@ -228,7 +228,7 @@ def run_c15(ctx):
         raise ToolError("Hostile.tla: %s" % r["violated"])
     for build, binary in (("default", hs), ("benchmark", hsb)):
         tpath = ctx.path("hostile-%s.ndjson" % build)
-        st = run_harness(ctx, binary, ["hostile", "out=" + tpath, "seed=%d" % ctx.seed, "per_class=%d" % (10 if q else 60), "tag=c15-%d" % os.getpid()], timeout=3000)
+        st = run_harness(ctx, binary, ["hostile", "out=" + tpath, "seed=%d" % ctx.seed, "per_class=%d" % (25 if q else 400), "tag=c15-%d" % os.getpid()], timeout=3000)
         ctx.log("hostile input, build %s: %s" % (build, st))
         rep = validate_trace(ctx, tpath, "hostile-" + build, module="TraceHostile.tla", base_constants={})
         ctx.traces += 1
